@@ -317,7 +317,12 @@ def _checkout(  # noqa: C901
 
     progress_callback.set_size(sum(diff.stats.values()))
     link = Link(links, callback=progress_callback)
-    for change in diff.deleted:
+    # files before directories: removing a directory takes everything below it along, so
+    # each file's own "is it in the cache" guard has to have run before that
+    deleted = sorted(
+        diff.deleted, key=lambda change: bool(change.old.oid and change.old.oid.isdir)
+    )
+    for change in deleted:
         entry_path = fs.join(path, *change.old.key) if change.old.key != ROOT else path
         _remove(entry_path, fs, change.old.in_cache, force=force, prompt=prompt)
 
